@@ -23,6 +23,7 @@ GEN2TR = {
     "Relabel_gen": ("translate_numpy_utils", "regenerate_relabel"),
     "ImportPipeline_gen": ("translate_import", "regenerate"),
     "ExportPipeline_gen": ("translate_export", "regenerate"),
+    "Ctor_gen": ("translate_ctor", "regenerate"),
 }
 
 
